@@ -865,17 +865,22 @@ class LogDensity(Contract):
 class TraceUpdate(Contract):
     """convenience: trace.update(x) == gen_fn.update(trace, x, *stored_args, **stored_kwargs)"""
 
-    cases = ["stored_args_reused", "stored_kwargs_reused", "explicit_args"]
+    cases = ["stored_args_reused", "stored_kwargs_reused", "explicit_args", "explicit_args:trace_was_made_with_kwargs", "explicit_kwargs_only:trace_was_made_with_args"]
 
     def call(self, case):
         self.g = AbsGF("g")
         self.args0 = (value("b0"), value("b1"))
-        self.kw0 = {"kw": value("kw0")} if case == "stored_kwargs_reused" else {}
+        self.kw0 = {"kw": value("kw0")} if (case == "stored_kwargs_reused" or "trace_was_made_with_kwargs" in case) else {}
         self.tr = AbsTrace(self.g, (self.args0, self.kw0), value("x0"), value("r0"), real("s0"))
         self.c = value("c")
-        if case == "explicit_args":
+        self.new, self.new_kw = (), {}
+        if case.startswith("explicit_args"):
+            # the caller gives the NEW call: exactly these arguments (a trace made with kwargs does not lend its kwargs)
             self.new = (value("n0"),)
             return self.real(self.fn, self.tr, self.c, *self.new)
+        if case.startswith("explicit_kwargs_only"):
+            self.new_kw = {"kw": value("nkw")}
+            return self.real(self.fn, self.tr, self.c, **self.new_kw)
         return self.real(self.fn, self.tr, self.c)
 
     def ensures(self, case, path):
@@ -887,8 +892,9 @@ class TraceUpdate(Contract):
         if len(uc) != 1:
             return
         _, a, k = uc[0]
-        exp_args = self.new if case == "explicit_args" else self.args0
-        exp_kw = {} if case == "explicit_args" else self.kw0
+        explicit = case.startswith("explicit")
+        exp_args = self.new if explicit else self.args0
+        exp_kw = self.new_kw if explicit else self.kw0
         yield "trace_and_constraint_forwarded", a[0] is self.tr and a[1] is self.c
         yield "arguments_are_the_stored_(or_given)_ones", len(a) == 2 + len(exp_args) and all(x is y for x, y in zip(a[2:], exp_args)) and set(k) == set(exp_kw) and all(k[n] is exp_kw[n] for n in k)
 
